@@ -340,6 +340,13 @@ Definition wstep (fx : bool) (s : wsys) (o : wop) : wsys :=
 
 Definition wrun (fx : bool) (s : wsys) (ops : list wop) : wsys := fold_left (wstep fx) ops s.
 
+(* the only state in which a running wait() call makes no progress on its own:
+   parked on the notification receiver, not notified, waker stored *)
+Definition parked_all_false (s : wsys) (wt : waiter) : Prop :=
+  w_pc wt = Await /\ notif (w_sys s) (w_ch wt) = false /\
+  (exists x, nth_error (chans (w_sys s)) (w_ch wt) = Some x /\ parked x = true) /\
+  forall c, In c (w_att wt) -> sys_trigger (w_sys s) c = false.
+
 (* ---------------------------------------------- the known class (finding D6) *)
 (* a set_enabled_statuses that turns the trigger value true while senders are
    registered: the unpatched code does not notify them *)
